@@ -441,6 +441,27 @@ class ExcFlow:
                 out.add(t[2:])
             elif t.startswith("XI:") or t.startswith("X:"):
                 out.add(t.split(":", 1)[1])
+        if not out and isinstance(e, ast.Call) \
+                and getattr(self, "_ec_depth", 0) < 3:
+            # raise helper(...): what the helper (a nested function, a
+            # private function) returns
+            try:
+                callees = self.P.resolve_call(fi, e)
+            except Exception:
+                callees = []
+            for c in callees:
+                if c.kind != "repo" or c.fn is None or c.how == "ctor":
+                    continue
+                saved = self._fi
+                self._fi = c.fn
+                self._ec_depth = getattr(self, "_ec_depth", 0) + 1
+                try:
+                    for r in walk_shallow(c.fn.node):
+                        if isinstance(r, ast.Return) and r.value is not None:
+                            out |= self._exc_classes(r.value)
+                finally:
+                    self._fi = saved
+                    self._ec_depth -= 1
         if not out and isinstance(e, ast.Call):
             # e.g. v.with_traceback(tb) / self.initerror(kind(message))
             f = e.func
